@@ -12,6 +12,9 @@ pub struct Case {
     pub rows: Vec<Vec<i64>>, // one row of results per individual
     pub cases: usize,        // configured case count (<= row length)
     pub errors: bool,        // polarity: results are errors (lower is better)
+    /// every per-case result is itself a *group* of sub-results (a `TestResults` whose order is by its total):
+    /// individual i's group for value v is [v - i, i], so equal values are equal in order but not identical
+    pub grouped: bool,
 }
 
 /// The reference law: enumerate all orders of the considered cases, filter by
@@ -72,8 +75,29 @@ fn dominated(c: &Case, w: usize) -> bool {
     })
 }
 
+fn grouped_pop<R: From<i64>>(rows: &[Vec<i64>]) -> Vec<ec_core::individual::ec::EcIndividual<u8, ec_core::test_results::TestResults<ec_core::test_results::TestResults<R>>>> {
+    use ec_core::test_results::TestResults;
+    rows.iter()
+        .enumerate()
+        .map(|(i, r)| {
+            let groups: Vec<TestResults<R>> = r.iter().map(|v| TestResults { results: vec![R::from(*v - i as i64), R::from(i as i64)], total_result: R::from(*v) }).collect();
+            let total = TestResults { results: vec![R::from(r.iter().sum::<i64>())], total_result: R::from(r.iter().sum::<i64>()) };
+            ec_core::individual::ec::EcIndividual::new(0u8, TestResults { results: groups, total_result: total })
+        })
+        .collect()
+}
+
 pub fn observe(c: &Case, env: &mut mcx::Env, alpha: Alphabet) -> SelObs {
     let sel = Lexicase::new(c.cases);
+    if c.grouped {
+        return if c.errors {
+            let pop = grouped_pop::<ec_core::test_results::Error<i64>>(&c.rows);
+            observe_select(&sel, &pop, &pop, env, alpha)
+        } else {
+            let pop = grouped_pop::<ec_core::test_results::Score<i64>>(&c.rows);
+            observe_select(&sel, &pop, &pop, env, alpha)
+        };
+    }
     if c.errors {
         let pop = mk_pop_matrix_err(&c.rows);
         observe_select(&sel, &pop, &pop, env, alpha)
@@ -87,7 +111,7 @@ pub fn lexicase_case(c: &Case) -> (u64, u64, Option<(String, String)>, usize) {
     let n = c.rows.len();
     let kk = factorial(n.max(c.cases) as u128) as u32;
     let rep = Alphabet::Rep { r: 479_001_600, k: kk };
-    let label = format!("rows={:?} cases={} polarity={}", c.rows, c.cases, if c.errors { "error" } else { "score" });
+    let label = format!("rows={:?} cases={} polarity={}{}", c.rows, c.cases, if c.errors { "error" } else { "score" }, if c.grouped { " (every result a group of two sub-results with that total)" } else { "" });
     let want = lexicase_law(c);
     let mut law: Law<usize> = Law::new();
     let mut bad: Option<(String, String)> = None;
@@ -220,7 +244,7 @@ fn structured(n: usize, c: usize, marks: &[Vec<usize>], errors: bool) -> Case {
             rows[i][*k] = if errors { 4 } else { 6 };
         }
     }
-    Case { rows, cases: c, errors }
+    Case { rows, cases: c, errors, grouped: false }
 }
 
 fn marked_positions(c: usize) -> Vec<usize> {
@@ -343,10 +367,10 @@ pub fn run(run: &mut Run) {
                     if conf < c && conf + 1 < c {
                         continue; // c and c-1 only (plus 0 below)
                     }
-                    cases.push(Case { rows: rows.clone(), cases: conf, errors });
+                    cases.push(Case { rows: rows.clone(), cases: conf, errors, grouped: false });
                 }
                 if c >= 2 {
-                    cases.push(Case { rows: rows.clone(), cases: 0, errors });
+                    cases.push(Case { rows: rows.clone(), cases: 0, errors, grouped: false });
                 }
             }
         }
@@ -373,6 +397,11 @@ pub fn run(run: &mut Run) {
         push_all(3, 5, &v2, &mut cases);
         push_all(1, 5, &v3, &mut cases);
     }
+    // the same small matrices with grouped results (a result type whose equality is finer than its order)
+    {
+        let grouped: Vec<Case> = cases.iter().filter(|c| c.rows.len() <= 3 && c.rows.first().map(|r| r.len()).unwrap_or(0) <= 3 && c.rows.len() >= 2).map(|c| Case { rows: c.rows.clone(), cases: c.cases, errors: c.errors, grouped: true }).collect();
+        cases.extend(grouped);
+    }
     // structured matrices with more cases, exact law: the deciding cases at every pair of positions
     let law_c_max = if quick { 8 } else { 10 };
     for c in 5..=law_c_max {
@@ -392,7 +421,7 @@ pub fn run(run: &mut Run) {
                 continue;
             }
             let c = &cases[i];
-            run.violation(k, w, json!({"check":"C08","rows":c.rows,"cases":c.cases,"errors":c.errors}));
+            run.violation(k, w, json!({"check":"C08","rows":c.rows,"cases":c.cases,"errors":c.errors,"grouped":c.grouped}));
         }
     }
     // many cases (every-stream oracles only)
@@ -424,7 +453,7 @@ pub fn run(run: &mut Run) {
     run.states = (cases.len() + long.len()) as u64;
     run.traces_validated = run.evaluations;
     run.distinct_nontrivial = nontrivial;
-    run.rule = "every result matrix (n individuals x c cases over a small value set, ties and duplicates included) x both polarities x configured case counts {c, c-1, 0}; all word sequences of the Rep(12!, max(n,c)!) alphabet explored on the real Lexicase::select; exact law compared with the enumeration of all case orders; structured matrices (everybody tied except at marked cases; the deciding cases at every pair of positions) with exact law up to law.max_cases_structured cases; beyond that no law (the case order is not enumerable): for the case counts of long.case_counts and structured matrices with the deciding cases at the ends, the middle and around 256/512/1024, on every explored stream the winner must survive some ordering of the cases (so it is never dominated); non-trivial = scenarios whose law has more than one outcome".into();
+    run.rule = "every result matrix (n individuals x c cases over a small value set, ties and duplicates included) x both polarities x configured case counts {c, c-1, 0}, the small ones also with every result a group of sub-results ordered by its total (equality finer than order); all word sequences of the Rep(12!, max(n,c)!) alphabet explored on the real Lexicase::select; exact law compared with the enumeration of all case orders; structured matrices (everybody tied except at marked cases; the deciding cases at every pair of positions) with exact law up to law.max_cases_structured cases; beyond that no law (the case order is not enumerable): for the case counts of long.case_counts and structured matrices with the deciding cases at the ends, the middle and around 256/512/1024, on every explored stream the winner must survive some ordering of the cases (so it is never dominated); non-trivial = scenarios whose law has more than one outcome".into();
     run.bound("quick", json!(quick));
     run.bound("matrices", json!(if quick { "n<=3, c<=3 over 3 values; n=4, c<=2 and n=2, c=4 over 3 values; n=4, c=3 / n=3, c=4 / n=5, c=2 over 2 values" } else { "quick set plus n=4, c=3 and n=3, c=4 and n=1, c=5 over 3 values; n=4, c=4 / n=5, c=3 / n=6, c=2 / n=2, c=5 / n=3, c=5 over 2 values" }));
     run.assumptions = vec![
@@ -439,7 +468,7 @@ pub fn replay(v: &Value) -> bool {
         .as_array()
         .map(|a| a.iter().map(|r| r.as_array().map(|x| x.iter().filter_map(|y| y.as_i64()).collect()).unwrap_or_default()).collect())
         .unwrap_or_default();
-    let c = Case { rows, cases: v["cases"].as_u64().unwrap_or(0) as usize, errors: v["errors"].as_bool().unwrap_or(false) };
+    let c = Case { rows, cases: v["cases"].as_u64().unwrap_or(0) as usize, errors: v["errors"].as_bool().unwrap_or(false), grouped: v["grouped"].as_bool().unwrap_or(false) };
     if v["big"] == json!(true) {
         return crate::bigpop::replay(crate::bigpop::BigMode::Lexi, v);
     }
